@@ -35,7 +35,7 @@ def run_tlc(moddir, module, cfg, meta, env=None, workers=1, timeout=1200, covera
     if env:
         e.update(env)
     os.makedirs(meta, exist_ok=True)
-    cmd = ['timeout', str(timeout), 'tlc', '-workers', str(workers), '-metadir', meta, '-cleanup', '-noGenerateSpecTE']
+    cmd = ['timeout', str(timeout), os.path.join(os.path.dirname(os.path.dirname(os.path.dirname(os.path.abspath(__file__)))), 'bin', 'tlcw'), '-workers', str(workers), '-metadir', meta, '-cleanup', '-noGenerateSpecTE']
     if coverage:
         cmd += ['-coverage', '1']
     cmd += ['-config', cfg, module + '.tla']
